@@ -1,5 +1,8 @@
 import Model
 import Proofs.Walk
+import Proofs.Round
+import Proofs.FrameWalk
+import Proofs.WFCheck
 /-!
 C06 — reported start and end frame exactly the booked work.
 
@@ -10,43 +13,14 @@ end = the dependency bound (cursor + offset).
 namespace SP.C06
 open SP
 
-theorem roundHalfEven_bounds (x : Rat) : (x.floor : Int) ≤ roundHalfEven x ∧ roundHalfEven x ≤ x.floor + 1 := by
-  unfold roundHalfEven
-  simp only []
-  split
-  · omega
-  · split
-    · omega
-    · split <;> omega
+theorem roundHalfEven_bounds (x : Rat) : (x.floor : Int) ≤ roundHalfEven x ∧ roundHalfEven x ≤ x.floor + 1 :=
+  SP.roundHalfEven_bounds x
 
-theorem roundHalfEven_mono_int (x : Rat) (n : Int) (h : x ≤ (n : Rat)) : roundHalfEven x ≤ n := by
-  have hb := roundHalfEven_bounds x
-  have hfl : x.floor ≤ n := by
-    have := Rat.floor_le x
-    have h2 : (x.floor : Rat) ≤ (n : Rat) := by grind
-    exact_mod_cast h2
-  by_cases heq : x.floor = n
-  · -- x = n exactly, so the fractional part is 0 and rounding gives n
-    have hx : x = (n : Rat) := by
-      have := Rat.floor_le x
-      rw [heq] at this
-      grind
-    unfold roundHalfEven
-    simp only []
-    have hf : x.floor = n := heq
-    have hfr : x - (x.floor : Rat) = 0 := by rw [hf, hx]; grind
-    rw [hfr]
-    have h12 : ((0 : Rat) < 1 / 2) := by decide +kernel
-    simp only [h12, if_true]
-    omega
-  · omega
+theorem roundHalfEven_mono_int (x : Rat) (n : Int) (h : x ≤ (n : Rat)) : roundHalfEven x ≤ n :=
+  SP.roundHalfEven_mono_int x n h
 
-theorem roundHalfEven_nonneg (x : Rat) (h : 0 ≤ x) : 0 ≤ roundHalfEven x := by
-  have hb := roundHalfEven_bounds x
-  have : (0 : Int) ≤ x.floor := by
-    have := Rat.le_floor_iff.mpr (show ((0 : Int) : Rat) ≤ x by simpa using h)
-    exact this
-  omega
+theorem roundHalfEven_nonneg (x : Rat) (h : 0 ≤ x) : 0 ≤ roundHalfEven x :=
+  SP.roundHalfEven_nonneg x h
 
 /-- the reported date of a finishing task lies inside the finishing slot: `time(cur) ≤ end ≤ time(cur+1)`
     whenever the amount it accounts for is within the slot (`0 ≤ usedBefore + need ≤ G`) -/
@@ -92,5 +66,29 @@ theorem milestoneDate_is_bound (e : Env) (wf : WF e) (x : Int) (hx : e.start ≤
     simp
     unfold Env.time Env.idx at *
     omega
+
+/-! ### end to end (forward mode, single selected resource) -/
+
+/-- **C06 for whole projects**: after scheduling ANY well-formed project, for every forward effort task with a single
+    selected resource `r` that is reported as scheduled there are a first slot `fb` and a last slot `last`, both
+    carrying a booking of the task, such that every booking of the task on `r` lies in `[fb, last]`, the reported
+    start lies inside slot `fb` and the reported end inside slot `last` — the interval frames the booked work,
+    slot-exactly. -/
+theorem start_end_frame_bookings (e : Env) (wf : WF e) (t r : Nat) (hel : Elig e t r)
+    (hs : ((runScenario e).tst t).scheduled = true) (hf : ((runScenario e).tst t).forward = true) :
+    ∃ fb last : Int, fb ≤ last ∧
+      usageOf ((runScenario e).led.get r fb).usage t ≠ none ∧ usageOf ((runScenario e).led.get r last).usage t ≠ none ∧
+      (∀ i, usageOf ((runScenario e).led.get r i).usage t ≠ none → fb ≤ i ∧ i ≤ last) ∧
+      (∃ v, ((runScenario e).tst t).start = some v ∧ e.time fb ≤ v ∧ v ≤ e.time (fb + 1)) ∧
+      (∃ v, ((runScenario e).tst t).stop = some v ∧ e.time last ≤ v ∧ v ≤ e.time (last + 1)) :=
+  runScenario_framed e wf t r hel (runScenario_scheduled_done e t ⟨hel.leaf, hel.effort, hel.nomile⟩ hs) hf
+
+/-- the same for the environment elaborated from a project description, under the decidable check -/
+theorem start_end_frame_bookings_elab (p : RawProj) (h : wfCheck (elaborate p).env = true) (t r : Nat)
+    (hel : Elig (elaborate p).env t r)
+    (hs : ((runScenario (elaborate p).env).tst t).scheduled = true)
+    (hf : ((runScenario (elaborate p).env).tst t).forward = true) :
+    Framed (elaborate p).env (runScenario (elaborate p).env) t r :=
+  start_end_frame_bookings _ (wfCheck_sound _ h) t r hel hs hf
 
 end SP.C06
